@@ -192,6 +192,9 @@ func setupHost(dir string) error {
 		// local work the remote does not have: a commit on main and a branch that was never pushed
 		{host, "commit", "-q", "--allow-empty", "-m", "local work, not pushed"},
 		{host, "branch", "wip"},
+		// a linked worktree (its .git is a FILE pointing into .git/worktrees/linked): git-bug run from
+		// there must still keep everything in the host repository proper
+		{host, "worktree", "add", "-q", filepath.Join(dir, "linked"), "wip"},
 		{host, "config", "alias.co", "checkout"},
 		{host, "config", "verif.note", `a # b ; c "q"`},
 		{host, "config", "--add", "remote.origin.fetch", "+refs/pull/*/head:refs/remotes/origin/pr/*"},
